@@ -673,6 +673,19 @@ def run_sizes(rec, item):
         recipe = {"cfg": dict(cfg), "params": {"offset": 0x01020304, "data": ["shaped", ln, i % 4], "md": None}}
         factory_case(rec, "FileDataPdu", recipe, holder_too=(i % 16 == 0))
         n += 1
+    # directives whose data field can be long: Metadata (names of 0..255 octets each: data field lengths contiguous over
+    # ~510 values) and NAK (0..140 segment requests)
+    if item["part"] == 0:
+        for k in range(0, 511):
+            a, b = min(k, 255), max(0, k - 255)
+            recipe = {"cfg": dict(cfg), "params": {"closure": 1, "cs": 0, "size": 0x0102, "src": "s" * a, "dst": "d" * b, "opts": None}}
+            factory_case(rec, "MetadataPdu", recipe, holder_too=(k % 32 == 0))
+            n += 1
+    if item["part"] == 1:
+        for k in range(0, 141):
+            recipe = {"cfg": dict(cfg), "params": {"start": 1, "end": 0x01020304, "segs": [[i, i + 1] for i in range(k)] or None}}
+            factory_case(rec, "NakPdu", recipe, holder_too=(k % 32 == 0))
+            n += 1
     rec.count("factory_size_sweep_cases", n)
 
 
